@@ -43,6 +43,7 @@ type c07Quirks struct {
 	HasLastSender         bool
 	HasGetByID            bool
 	HasHash               bool
+	HasHitHash            bool
 	HasCompatFields       bool
 	ExactRetention        bool
 	EmptyPayloadOK        bool
@@ -114,6 +115,11 @@ type c07Params struct {
 	IDBase     uint64
 	SigPrefix  string
 	AuditCap   int // above this many rows point lookups are sampled
+	AuditEvery int // audit only every k-th mutating op (0/1 = every op)
+	ChurnOneIn int // a lease close evicts the warm cache once in this many times (default 6)
+	// Weights of the op kinds in run(): append, apply, truncate, trim, adopt,
+	// ckpt, lease, reopen, read. Zero value = C07 default mix.
+	Weights [9]int
 }
 
 // c07Driver runs one generated history against one or more surfaces that
@@ -130,7 +136,12 @@ type c07Driver struct {
 	freshP uint64
 	trace  []string
 	dead   bool
+	muts   int
 	kinds  []string // op-kind sequence (fingerprint)
+	// C08 bookkeeping: what kinds of duplicate rejections / re-acceptances the history contained
+	dupAfter map[string]int
+	// beforeClose runs just before the engine is closed for a reopen (evidence hooks)
+	beforeClose func()
 	uids   []string
 	nos    []string
 }
@@ -169,6 +180,9 @@ func c07NewDriver(r *verifkit.Run, rng *rand.Rand, node *c07Node, chans []*c07Ch
 	}
 	if d.p.MaxBatch == 0 {
 		d.p.MaxBatch = 64
+	}
+	if d.p.ChurnOneIn == 0 {
+		d.p.ChurnOneIn = 6
 	}
 	d.fresh = p.IDBase + 1<<20
 	// sender / client-number pools with prefix-related members: ("a","bc") vs ("ab","c").
@@ -485,7 +499,12 @@ func (d *c07Driver) doAppend(ch *c07Chan, mode c07Mode, recs []c07Rec, baseChoic
 		}
 	}
 	proj := d.project(ch, recs)
-	want, why := d.node.expectAppend(ch, mode, baseSeq, proj, d.q.ChecksDup)
+	if mode == c07Trusted {
+		for i := range proj {
+			proj[i].trusted = true
+		}
+	}
+	want, why, holder := d.node.expectAppendHolder(ch, mode, baseSeq, proj, d.q.ChecksDup)
 	d.kind("append-" + mode.String())
 	d.tracef("append %s chan=%s n=%d base=%d leo=%d want=%s(%s)", mode, ch.Key, len(recs), baseSeq, ch.LEO, want, why)
 	if why != "" {
@@ -497,7 +516,18 @@ func (d *c07Driver) doAppend(ch *c07Chan, mode c07Mode, recs []c07Rec, baseChoic
 	}
 	for _, s := range d.surfs {
 		base, last, err := s.Append(ch, mode, baseSeq, recs)
-		w := map[string]any{"chan": ch.Key, "mode": mode.String(), "n": len(recs), "base_seq": baseSeq, "model_leo": ch.LEO, "why": why, "first": c07Brief(c07First(proj))}
+		w := map[string]any{"chan": ch.Key, "mode": mode.String(), "n": len(recs), "base_seq": baseSeq, "model_leo": ch.LEO, "why": why, "first": c07Brief(c07First(proj)), "barriers": ch.Barriers}
+		if want == "conflict" && err == nil && (why == "stored-pair" || why == "batch-pair" || why == "stored-id" || why == "batch-id") {
+			// the refuting event of C08: a duplicate was stored
+			w["holder"], w["got_base"], w["got_last"] = c07Brief(holder), base, last
+			if holder != nil {
+				w["holder_stored_before_barriers"] = ch.Barriers[min(holder.epoch, len(ch.Barriers)):]
+				w["holder_trusted"] = holder.trusted
+			}
+			d.r.Eval(1)
+			d.violate(fmt.Sprintf("%s:append:duplicate-accepted:%s:%s", s.Quirks().Name, why, mode), w)
+			return false
+		}
 		if !d.checkClass(s, "append", want, err, w) {
 			return false
 		}
@@ -507,12 +537,66 @@ func (d *c07Driver) doAppend(ch *c07Chan, mode c07Mode, recs []c07Rec, baseChoic
 			return false
 		}
 	}
+	d.noteDup(ch, mode, want, why, holder, proj)
 	if want == "ok" {
 		d.node.applyAppend(ch, proj)
 		d.r.Count("rows.appended", len(recs))
 	}
-	d.audit(ch)
+	d.auditMaybe(ch)
 	return want == "ok" && len(recs) > 0
+}
+
+// noteDup records which duplicate situations a history exercised.
+func (d *c07Driver) noteDup(ch *c07Chan, mode c07Mode, want, why string, holder *c07Rec, proj []c07Rec) {
+	if d.dupAfter == nil {
+		d.dupAfter = map[string]int{}
+	}
+	note := func(k string) {
+		d.dupAfter[k]++
+		d.r.Count("dup."+k, 1)
+	}
+	switch {
+	case want == "conflict" && (why == "batch-pair" || why == "batch-id"):
+		note("rejected.in-" + why)
+	case want == "conflict" && holder != nil:
+		kind := "same-lease"
+		seen := map[string]bool{}
+		for _, b := range ch.Barriers[min(holder.epoch, len(ch.Barriers)):] {
+			seen[b] = true
+		}
+		for _, b := range []string{"reopen", "evict", "reclaim"} {
+			if seen[b] {
+				kind = b
+				break
+			}
+		}
+		if loc := d.node.IDs[holder.ID]; why == "stored-id" && loc.Key != ch.Key {
+			kind = "other-channel"
+		}
+		note("rejected." + why + ".after-" + kind)
+		if holder.trusted {
+			note("rejected." + why + ".holder-trusted")
+		}
+	case want == "ok":
+		for i := range proj {
+			if p, ok := proj[i].pair(); ok {
+				for _, g := range ch.GonePairs {
+					if g == p {
+						note("reaccepted-pair-after-removal")
+						break
+					}
+				}
+			}
+		}
+	}
+}
+
+func (d *c07Driver) auditMaybe(ch *c07Chan) {
+	d.muts++
+	if d.p.AuditEvery > 1 && d.muts%d.p.AuditEvery != 0 {
+		return
+	}
+	d.audit(ch)
 }
 
 func c07First(recs []c07Rec) *c07Rec {
@@ -544,6 +628,11 @@ func (d *c07Driver) stepApply(ch *c07Chan) {
 		baseSeq = ch.LEO + 1 // an empty batch cannot carry a base on index-addressed surfaces
 	}
 	proj := d.project(ch, recs)
+	if !strict {
+		for i := range proj {
+			proj[i].trusted = true
+		}
+	}
 	want, why := d.node.expectAppend(ch, mode, baseSeq, proj, d.q.ChecksDup)
 	// optional checkpoint carried by the apply (only with an acceptable batch:
 	// surfaces validate rows and checkpoint in different orders)
@@ -849,7 +938,9 @@ func (d *c07Driver) stepLease(ch *c07Chan) {
 		}
 	}
 	ch.Leased = false
-	if d.q.HasChurn && d.p.AllowDBOps && d.rng.IntN(6) == 0 {
+	barrier := "reclaim"
+	if d.q.HasChurn && d.p.AllowDBOps && d.rng.IntN(max(d.p.ChurnOneIn, 1)) == 0 {
+		barrier = "evict"
 		// evict the warm append state so LEO and the idempotency filter are
 		// rebuilt from durable rows at the next acquisition
 		d.kind("churn")
@@ -861,6 +952,7 @@ func (d *c07Driver) stepLease(ch *c07Chan) {
 			}
 		}
 	}
+	ch.Barriers = append(ch.Barriers, barrier)
 	if d.ensureLease(ch) {
 		d.audit(ch)
 	}
@@ -873,6 +965,9 @@ func (d *c07Driver) stepReopen() {
 	d.kind("reopen")
 	d.tracef("reopen db")
 	releaseFirst := d.rng.IntN(2) == 0
+	if d.beforeClose != nil {
+		d.beforeClose()
+	}
 	for _, s := range d.surfs {
 		if releaseFirst {
 			for _, ch := range d.chans {
@@ -895,6 +990,7 @@ func (d *c07Driver) stepReopen() {
 	}
 	for _, ch := range d.chans {
 		ch.Leased = false
+		ch.Barriers = append(ch.Barriers, "reopen")
 		if ch.appendAfterCut {
 			ch.reopenAfterAppend = true
 		}
@@ -1103,7 +1199,7 @@ func (d *c07Driver) auditOn(s c07Surface, ch *c07Chan) {
 				d.violate(name+":lookup-idempotency:missing", wit(map[string]any{"pair": p, "seq": seq, "found": found, "err": fmt.Sprint(err)}))
 				return
 			}
-			if hit.Seq != wantSeq || hit.ID != wantRow.ID || (q.HasHash && hit.Hash != wantRow.PayloadHash) {
+			if hit.Seq != wantSeq || hit.ID != wantRow.ID || (q.HasHitHash && hit.Hash != wantRow.PayloadHash) {
 				d.violate(name+":lookup-idempotency:wrong-row", wit(map[string]any{"pair": p, "got": hit, "want": c07Brief(wantRow)}))
 				return
 			}
@@ -1265,33 +1361,133 @@ func (d *c07Driver) checkListByNo(s c07Surface, ch *c07Chan, no string, before u
 
 // run executes the history.
 func (d *c07Driver) run() {
+	w := d.p.Weights
+	if w == ([9]int{}) {
+		w = [9]int{36, 10, 8, 9, 5, 4, 7, 4, 17}
+	}
+	total := 0
+	for _, x := range w {
+		total += x
+	}
 	for i := 0; i < d.p.Ops && !d.dead; i++ {
 		ch := d.chans[d.rng.IntN(len(d.chans))]
-		switch x := d.rng.IntN(100); {
-		case x < 36:
+		x := d.rng.IntN(total)
+		k := 0
+		for ; k < len(w)-1; k++ {
+			if x < w[k] {
+				break
+			}
+			x -= w[k]
+		}
+		switch k {
+		case 0:
 			d.stepAppend(ch)
-		case x < 46:
+		case 1:
 			if d.q.HasApply {
 				d.stepApply(ch)
 			} else {
 				d.stepAppend(ch)
 			}
-		case x < 54:
+		case 2:
 			d.stepTruncate(ch)
-		case x < 63:
+		case 3:
 			d.stepTrim(ch)
-		case x < 68:
+		case 4:
 			d.stepAdopt(ch)
-		case x < 72:
+		case 5:
 			d.stepCkpt(ch)
-		case x < 79:
+		case 6:
 			d.stepLease(ch)
-		case x < 83:
+		case 7:
 			d.stepReopen()
 		default:
 			d.stepRead(ch)
 		}
 	}
+}
+
+// barrier forces the real store to drop / reload the channel's append state.
+func (d *c07Driver) barrier(ch *c07Chan, kind string) {
+	if d.dead {
+		return
+	}
+	if kind == "reopen" {
+		d.stepReopen()
+		return
+	}
+	if ch.Leased {
+		for _, s := range d.surfs {
+			if err := s.Release(ch); err != nil {
+				d.violate(s.Quirks().Name+":release:error", map[string]any{"err": err.Error()})
+				return
+			}
+		}
+		ch.Leased = false
+	}
+	d.kind("lease-close")
+	if kind == "evict" && d.q.HasChurn {
+		d.kind("churn")
+		for _, s := range d.surfs {
+			if err := s.Churn(8300); err != nil {
+				d.violate(s.Quirks().Name+":churn:error", map[string]any{"err": err.Error()})
+				return
+			}
+		}
+	} else {
+		kind = "reclaim"
+	}
+	d.tracef("barrier %s chan=%s", kind, ch.Key)
+	ch.Barriers = append(ch.Barriers, kind)
+	d.ensureLease(ch)
+}
+
+// applyExact applies a clean trusted follower batch at the right base.
+func (d *c07Driver) applyExact(ch *c07Chan, recs []c07Rec) {
+	if !d.ensureLease(ch) {
+		return
+	}
+	proj := d.project(ch, recs)
+	for i := range proj {
+		proj[i].trusted = true
+	}
+	want, why := d.node.expectAppend(ch, c07Trusted, ch.LEO+1, proj, d.q.ChecksDup)
+	d.kind("apply")
+	d.tracef("apply-exact chan=%s n=%d leo=%d want=%s(%s)", ch.Key, len(recs), ch.LEO, want, why)
+	for _, s := range d.surfs {
+		last, err := s.Apply(ch, ch.LEO+1, recs, nil, false)
+		if !d.checkClass(s, "apply", want, err, map[string]any{"chan": ch.Key, "n": len(recs), "model_leo": ch.LEO, "why": why}) {
+			return
+		}
+		if want == "ok" && len(recs) > 0 && last != ch.LEO+uint64(len(recs)) {
+			d.violate(s.Quirks().Name+":apply:range-mismatch", map[string]any{"got_last": last, "model_leo": ch.LEO, "n": len(recs)})
+			return
+		}
+	}
+	if want == "ok" {
+		d.node.applyAppend(ch, proj)
+		d.r.Count("rows.applied", len(recs))
+	}
+	d.auditMaybe(ch)
+}
+
+// truncateExact cuts the log to `to` (must be a legal target).
+func (d *c07Driver) truncateExact(ch *c07Chan, to uint64) {
+	if !d.ensureLease(ch) {
+		return
+	}
+	d.kind("truncate")
+	d.tracef("truncate-exact chan=%s to=%d leo=%d", ch.Key, to, ch.LEO)
+	for _, s := range d.surfs {
+		if !d.checkClass(s, "truncate", "ok", s.Truncate(ch, to), map[string]any{"chan": ch.Key, "to": to, "model_leo": ch.LEO}) {
+			return
+		}
+	}
+	n := d.node.truncateTo(ch, to)
+	d.r.Count("rows.truncated", n)
+	if ch.Ret.Present && ch.Ret.RetainedMax > to && !d.q.TruncKeepsRetainedMax {
+		ch.Ret.RetainedMax = to
+	}
+	d.audit(ch)
 }
 
 // fingerprint is the abstract op-kind sequence with run lengths removed.
